@@ -11,6 +11,9 @@ import c02
 def run(ctx, rep):
     facts = ctx.mir
     rep.rule("P1-P3", "Position::new builds {offset: x, line_col: get_by_cluster(lookup, x)} from one x; Range::new puts start / end in place; every other Position / Range aggregate is the empty-range idiom {p.clone(), p.clone()}")
+    rep.rule("P0", "add_content hands the caller's text itself (not a stripped or normalised copy) to both the line/column lookup and the generated parser")
+    import c12
+    c12.content_untouched(ctx, rep, "P0", "C04")
     rep.rule("P4", "Cargo.toml enables line-col/grapheme-clusters and the lookup used is get_by_cluster")
     rep.rule("D1/W1", "every offset given to Range::new in a grammar action is an untouched @L / @R capture; start is an @L, end an @R that does not precede it")
     rep.rule("W2-W4", "per production (spec/wiring.json): symbol_range spans exactly the name symbol, full_range runs from the capture in front of the construct's first symbol to the capture behind its last one; children lie inside")
@@ -19,14 +22,7 @@ def run(ctx, rep):
     rep.rule("G3", "every Diagnostic / RelatedInfo built by validation takes its range from a range field of an AST node in scope (clone), or is the empty range at the type's start")
     # ---- P1-P3
     fp = facts.fn("ast::Position::new")
-    paths = Machine(facts, pure_fns=["line_col::LineColLookup::<'source>::get_by_cluster"]).run("ast::Position::new", [sym_ref("lookup"), Opaque("x")])
-    ok = len(paths) == 1 and isinstance(paths[0].ret, AdtVal)
-    det = None
-    if ok:
-        r = paths[0].ret
-        det = [fmt_label(lab(r.fields[i].val)) for i in (0, 1)]
-        ok = det == ["x", "line_col::LineColLookup::<'source>::get_by_cluster(lookup, x)"]
-    rep.check(ok, "P1", "C04|P1|Position::new", cfg.where(fp), "Position::new(lookup, x) must be {offset: x, line_col: lookup.get_by_cluster(x)}; extracted %r" % (det,), sample={"position": det})
+    position_rules(ctx, rep, "C04")
     fr_ = facts.fn("ast::Range::new")
     paths = Machine(facts, opaque_fns=["ast::Position::new"], pure_fns=["ast::Position::new"]).run("ast::Range::new", [sym_ref("lookup"), Opaque("s"), Opaque("e")])
     ok = len(paths) == 1 and isinstance(paths[0].ret, AdtVal)
@@ -65,12 +61,6 @@ def run(ctx, rep):
     rg = [diag_of(e)["range"] for p in ps for e in p.pushes("diagnostics")]
     rep.check(rg == [("empty_at", "arg.arg_type.symbol_range.start")], "P3", "C04|P3|empty-range-idiom", cfg.where(facts.fn("validation::check_method_args")),
               "the missing-direction range must be the empty range {p, p} at the start of the argument's type; extracted %r" % (rg,), sample={"range": repr(rg)})
-    # ---- P4
-    toml = open(ctx.repo + "/Cargo.toml").read()
-    m = re.search(r"^line-col\s*=\s*\{([^}]*)\}", toml, re.M)
-    rep.check(bool(m) and "grapheme-clusters" in m.group(1), "P4", "C04|P4|feature", "Cargo.toml", "line-col must be built with the grapheme-clusters feature (columns are counted in grapheme clusters)")
-    sites = cfg.call_sites(fp["body"], lambda c: "LineColLookup" in c)
-    rep.check([c for _, t in sites for c in [(callee_info(t).get("resolved") or callee_info(t)["def"]).rsplit("::", 1)[1]]] == ["get_by_cluster"], "P4", "C04|P4|lookup-fn", cfg.where(fp), "Position::new must use get_by_cluster")
     # ---- wiring: offsets and ranges
     n1, stats = common_g.emit(ctx, rep, "C04", {"offsets"}, "D1")
     rep.floor("D1", "Range::new sites in grammar actions", stats["range_sites"], 30)
@@ -78,6 +68,19 @@ def run(ctx, rep):
     rep.floor("W", "range wiring obligations", n2, 80)
     c02.ctor_rules(ctx, rep, "C04", ranges=True)
     # ---- G1
+    parse_error_ranges(ctx, rep, "C04")
+    # ---- G3 validation diagnostics
+    g3(ctx, rep)
+    rep.assumptions += ["TB-2 lalrpop: @L/@R are byte offsets of token boundaries, monotone in production order", "TB-3 numeric correctness of the line-col crate", "TB-1 rustc MIR", "TB-4 tabulator"]
+    rep.not_decided += ["numeric correctness of line / column computation (line-col crate)", "which token lalrpop blames on recovery (only that its boundaries are forwarded untouched)"]
+
+
+RANGE_FIELDS = ("symbol_range", "full_range", "transact_code_range", "oneway_range")
+
+
+def parse_error_ranges(ctx, rep, prop):
+    """G1 (shared with C11): where each syntax error is reported"""
+    facts = ctx.mir
     FPE = "diagnostic::Diagnostic::from_parse_error"
     ff = facts.fn(FPE)
     paths = Machine(facts, opaque_fns=["diagnostic::expected_token_str", "ast::Range::new"], pure_fns=["diagnostic::expected_token_str", "ast::Range::new"]).run(FPE, [sym_ref("lookup"), Opaque("e", "lalrpop_util::ParseError")])
@@ -95,15 +98,28 @@ def run(ctx, rep):
             else:
                 got[var] = fmt_label(rl)
     for var, w in sorted(want.items()):
-        rep.check(got.get(var) == w, "G1", "C04|G1|%s" % var, cfg.where(ff), "ParseError::%s must be reported on Range::new(lookup, %s, %s) - the offending token's own boundaries / the failure location; extracted %r" % (var, w[0], w[1], got.get(var)),
+        rep.check(got.get(var) == w, "G1", "%s|G1|%s" % (prop, var), cfg.where(ff), "ParseError::%s must be reported on Range::new(lookup, %s, %s) - the offending token's own boundaries / the failure location; extracted %r" % (var, w[0], w[1], got.get(var)),
                   sample={"variant": var, "range": repr(got.get(var))})
-    # ---- G3 validation diagnostics
-    g3(ctx, rep)
-    rep.assumptions += ["TB-2 lalrpop: @L/@R are byte offsets of token boundaries, monotone in production order", "TB-3 numeric correctness of the line-col crate", "TB-1 rustc MIR", "TB-4 tabulator"]
-    rep.not_decided += ["numeric correctness of line / column computation (line-col crate)", "which token lalrpop blames on recovery (only that its boundaries are forwarded untouched)"]
 
 
-RANGE_FIELDS = ("symbol_range", "full_range", "transact_code_range", "oneway_range")
+def position_rules(ctx, rep, prop):
+    """P1 + P4 (shared with C16): a Position pairs the offset with line-col's grapheme-cluster lookup of that same offset"""
+    facts = ctx.mir
+    fp = facts.fn("ast::Position::new")
+    paths = Machine(facts, pure_fns=["line_col::LineColLookup::<'source>::get_by_cluster"]).run("ast::Position::new", [sym_ref("lookup"), Opaque("x")])
+    ok = len(paths) == 1 and isinstance(paths[0].ret, AdtVal)
+    det = None
+    if ok:
+        r = paths[0].ret
+        det = [fmt_label(lab(r.fields[i].val)) for i in (0, 1)]
+        ok = det == ["x", "line_col::LineColLookup::<'source>::get_by_cluster(lookup, x)"]
+    rep.check(ok, "P1", "%s|P1|Position::new" % prop, cfg.where(fp), "Position::new(lookup, x) must be {offset: x, line_col: lookup.get_by_cluster(x)}; extracted %r" % (det,), sample={"position": det})
+    toml = open(ctx.repo + "/Cargo.toml").read()
+    m = re.search(r"^line-col\s*=\s*\{([^}]*)\}", toml, re.M)
+    rep.check(bool(m) and "grapheme-clusters" in m.group(1), "P4", "%s|P4|feature" % prop, "Cargo.toml", "line-col must be built with the grapheme-clusters feature (columns are counted in grapheme clusters)")
+    sites = cfg.call_sites(fp["body"], lambda c: "LineColLookup" in c)
+    rep.check([c for _, t in sites for c in [(callee_info(t).get("resolved") or callee_info(t)["def"]).rsplit("::", 1)[1]]] == ["get_by_cluster"], "P4", "%s|P4|lookup-fn" % prop, cfg.where(fp),
+              "Position::new must use get_by_cluster (the plain `get` counts columns in chars: a combining mark or other multi-char cluster shifts every later column on the line)")
 
 
 def node_range(l):
